@@ -34,6 +34,17 @@
         } \
     } while(0)
 
+/* An arena allocation for a non-empty list failed: latch the error in the decoder and stop */
+#define CHECK_LIST_ALLOC(ptr, count, dec) \
+    do { \
+        if (!(ptr) && (count) > 0) { \
+            (dec)->status = CARQUET_ERROR_OUT_OF_MEMORY; \
+            snprintf((dec)->error_message, sizeof((dec)->error_message), \
+                "Out of memory allocating %d list elements", (int)(count)); \
+            return; \
+        } \
+    } while(0)
+
 #define VALIDATE_COUNT_STATUS(count, max, error) \
     do { \
         if ((count) < 0 || (count) > (max)) { \
@@ -51,11 +62,13 @@
 static char* arena_strdup_thrift(carquet_arena_t* arena, thrift_decoder_t* dec) {
     int32_t len;
     const uint8_t* data = thrift_read_binary(dec, &len);
-    if (!data && len == 0) {
-        return carquet_arena_strdup(arena, "");
+    if (!data && len != 0) return NULL;
+    char* copy = data ? carquet_arena_strndup(arena, (const char*)data, (size_t)len)
+                      : carquet_arena_strdup(arena, "");
+    if (!copy && dec->status == CARQUET_OK) {
+        dec->status = CARQUET_ERROR_OUT_OF_MEMORY;
     }
-    if (!data) return NULL;
-    return carquet_arena_strndup(arena, (const char*)data, (size_t)len);
+    return copy;
 }
 
 static uint8_t* arena_bindup_thrift(carquet_arena_t* arena, thrift_decoder_t* dec, int32_t* out_len) {
@@ -63,7 +76,11 @@ static uint8_t* arena_bindup_thrift(carquet_arena_t* arena, thrift_decoder_t* de
     const uint8_t* data = thrift_read_binary(dec, &len);
     *out_len = len;
     if (!data || len == 0) return NULL;
-    return carquet_arena_memdup(arena, data, (size_t)len);
+    uint8_t* copy = carquet_arena_memdup(arena, data, (size_t)len);
+    if (!copy && dec->status == CARQUET_OK) {
+        dec->status = CARQUET_ERROR_OUT_OF_MEMORY;
+    }
+    return copy;
 }
 
 /* ============================================================================
@@ -332,6 +349,7 @@ static void parse_column_metadata(thrift_decoder_t* dec, carquet_arena_t* arena,
                 VALIDATE_COUNT(count, CARQUET_MAX_ENCODINGS, dec);
                 meta->num_encodings = count;
                 meta->encodings = carquet_arena_calloc(arena, count, sizeof(carquet_encoding_t));
+                CHECK_LIST_ALLOC(meta->encodings, count, dec);
                 for (int32_t i = 0; i < count; i++) {
                     meta->encodings[i] = (carquet_encoding_t)thrift_read_i32(dec);
                 }
@@ -344,6 +362,7 @@ static void parse_column_metadata(thrift_decoder_t* dec, carquet_arena_t* arena,
                 VALIDATE_COUNT(count, CARQUET_MAX_PATH_ELEMENTS, dec);
                 meta->path_len = count;
                 meta->path_in_schema = carquet_arena_calloc(arena, count, sizeof(char*));
+                CHECK_LIST_ALLOC(meta->path_in_schema, count, dec);
                 for (int32_t i = 0; i < count; i++) {
                     meta->path_in_schema[i] = arena_strdup_thrift(arena, dec);
                 }
@@ -369,6 +388,7 @@ static void parse_column_metadata(thrift_decoder_t* dec, carquet_arena_t* arena,
                 meta->num_key_value = count;
                 meta->key_value_metadata = carquet_arena_calloc(arena, count,
                     sizeof(parquet_key_value_t));
+                CHECK_LIST_ALLOC(meta->key_value_metadata, count, dec);
                 for (int32_t i = 0; i < count; i++) {
                     thrift_read_struct_begin(dec);
                     thrift_type_t ft;
@@ -405,6 +425,7 @@ static void parse_column_metadata(thrift_decoder_t* dec, carquet_arena_t* arena,
                 meta->num_encoding_stats = count;
                 meta->encoding_stats = carquet_arena_calloc(arena, count,
                     sizeof(parquet_page_encoding_stats_t));
+                CHECK_LIST_ALLOC(meta->encoding_stats, count, dec);
                 for (int32_t i = 0; i < count; i++) {
                     thrift_read_struct_begin(dec);
                     thrift_type_t ft;
@@ -511,6 +532,7 @@ static void parse_row_group(thrift_decoder_t* dec, carquet_arena_t* arena,
                 rg->num_columns = count;
                 rg->columns = carquet_arena_calloc(arena, count,
                     sizeof(parquet_column_chunk_t));
+                CHECK_LIST_ALLOC(rg->columns, count, dec);
                 for (int32_t i = 0; i < count; i++) {
                     parse_column_chunk(dec, arena, &rg->columns[i]);
                 }
@@ -591,6 +613,11 @@ carquet_status_t parquet_parse_file_metadata(
                 metadata->num_schema_elements = count;
                 metadata->schema = carquet_arena_calloc(arena, count,
                     sizeof(parquet_schema_element_t));
+                if (!metadata->schema && count > 0) {
+                    CARQUET_SET_ERROR(error, CARQUET_ERROR_OUT_OF_MEMORY,
+                        "Out of memory allocating %d list elements", (int)count);
+                    return CARQUET_ERROR_OUT_OF_MEMORY;
+                }
                 for (int32_t i = 0; i < count; i++) {
                     parse_schema_element(&dec, arena, &metadata->schema[i]);
                 }
@@ -607,6 +634,11 @@ carquet_status_t parquet_parse_file_metadata(
                 metadata->num_row_groups = count;
                 metadata->row_groups = carquet_arena_calloc(arena, count,
                     sizeof(parquet_row_group_t));
+                if (!metadata->row_groups && count > 0) {
+                    CARQUET_SET_ERROR(error, CARQUET_ERROR_OUT_OF_MEMORY,
+                        "Out of memory allocating %d list elements", (int)count);
+                    return CARQUET_ERROR_OUT_OF_MEMORY;
+                }
                 for (int32_t i = 0; i < count; i++) {
                     parse_row_group(&dec, arena, &metadata->row_groups[i]);
                 }
@@ -620,6 +652,11 @@ carquet_status_t parquet_parse_file_metadata(
                 metadata->num_key_value = count;
                 metadata->key_value_metadata = carquet_arena_calloc(arena, count,
                     sizeof(parquet_key_value_t));
+                if (!metadata->key_value_metadata && count > 0) {
+                    CARQUET_SET_ERROR(error, CARQUET_ERROR_OUT_OF_MEMORY,
+                        "Out of memory allocating %d list elements", (int)count);
+                    return CARQUET_ERROR_OUT_OF_MEMORY;
+                }
                 for (int32_t i = 0; i < count; i++) {
                     thrift_read_struct_begin(&dec);
                     thrift_type_t ft;
